@@ -10,7 +10,8 @@ from types import SimpleNamespace
 import core
 
 MAXDTS = [0.1, 0.05, 0.013, 1.0, 0.001, 0.25]
-COMBOS = {0: "control+calibration", 1: "control only", 2: "calibration only"}
+COMBOS = {0: "control+calibration", 1: "control only", 2: "calibration only", 3: "neither"}
+NCOMBO = 4
 
 
 def fbits(x: float) -> str:
